@@ -57,4 +57,9 @@ def to_int(val: Any) -> int:
             f"value has {len(val)} digits",
             token=None,
         )
-    return int(val)
+    try:
+        return int(val)
+    except (TypeError, OverflowError) as err:
+        # None, containers and infinities can't be cast either: report them the way a
+        # non-numeric string is reported, so callers' defaults and error handling apply.
+        raise ValueError(str(err)) from err
